@@ -27,6 +27,7 @@ type Driver struct {
 	Verbose           bool
 	Timeout           int
 	Evidence          string
+	WriteInv          bool
 
 	start     time.Time
 	queries   []*Query
@@ -46,7 +47,7 @@ type funcInfo struct {
 
 type KnownFinding struct {
 	ID         string   `json:"id"`
-	Property   string   `json:"property"`
+	Properties []string `json:"properties"`
 	Status     string   `json:"status"` // known | fixed
 	Obligation string   `json:"obligation"` // obligation name suffix (without the target prefix) or full name
 	Targets    []string `json:"targets,omitempty"`
@@ -62,6 +63,10 @@ var rtVariantsAll = []string{
 	"o1b0l0s0", "o1b1l0s0", "o1b0l1s0", "o1b1l1s0",
 	"o1b0l0s1", "o1b1l0s1", "o1b0l1s1", "o1b1l1s1",
 }
+
+// quick tier: six instantiations in which every template flag occurs both ways and the
+// interesting pairs (optimize x state, optimize x left recursion) are covered.
+var rtVariantsQuick = []string{"o0b0l0s0", "o0b1l1s1", "o1b0l0s0", "o1b1l1s1", "o1b0l1s0", "o1b1l0s1"}
 
 func variantFlags(v string) map[string]bool {
 	f := map[string]bool{}
@@ -252,6 +257,9 @@ func (d *Driver) rtJobs(loader *Loader) ([]*job, error) {
 		return nil, fmt.Errorf("instantiation harness failed: %v\n%s", err, b)
 	}
 	variants := rtVariantsAll
+	if d.Tier == "quick" {
+		variants = rtVariantsQuick
+	}
 	if d.OnlyVariant != "" {
 		variants = []string{d.OnlyVariant}
 	}
